@@ -6,6 +6,10 @@ props = [json.loads(l) for l in open(os.path.join(VERIF, 'properties.jsonl'))]
 ids = [p['id'] for p in props]
 
 CHECKS = {
+ 'C18': dict(engine='E1 enum', category='exploration', design_ref='3 C18',
+   technique='bounded-exhaustive differential enumeration: NullServer vs three wire paths over signatures x values x call styles',
+   text='Every atom of the type alphabet in the positions argument / field / nested field / array / repeated member / several return values / out_bare / bare (complex argument passed field-wise), arities 0..3 x 0..3 return values, generator results, Ignored returns, Faults and a non-Fault exception; every conformant alphabet value; every call positional, by keyword and mixed. The value NullServer hands back (or the fault it raises) must equal what the reference decoders read from the XmlDocument, Soap11 and JsonDocument responses of the very same call, and the function must have seen the same arguments.',
+   note='The wire paths are themselves decided by C01/C02; JSON is skipped for the bare style (no documented convention).'),
  'C16': dict(engine='E1 enum', category='exploration', design_ref='3 C16',
    technique='exhaustive class trees x declared/runtime class pairs x positions x protocols x polymorphic flag against reference codecs and the loopback client',
    text='Every rooted class tree with up to 3 (quick) / 5 (thorough) classes and depth <= 3, each class adding one or two fields; every class as declared type with every descendant as runtime class; as argument, return value, field of another object, customised variant, repeated member, and array holding every ordered pair of descendants; XmlDocument, Soap11, Soap12 with polymorphic on/off and JSON, YAML, MessagePack with ignore_wrappers=False and polymorphic on/off. The reference codecs send subclass instances with a type marker and decode responses; every xsi:type in an emitted document must resolve through the namespace declarations in scope there; with polymorphism off exactly the declared fields arrive; object members must be in ancestors-first order; the loopback client must reconstruct the same class.',
